@@ -114,3 +114,54 @@ pub fn name_reuse(_a: &Args) {
         }
     });
 }
+
+/// C10 / C08 name clash: a live holder; spawns under its name through the regular and the thread-local runtime are refused and change nothing about the holder.
+pub fn name_clash(_a: &Args) {
+    use ractor::thread_local::{ThreadLocalActor, ThreadLocalActorSpawner};
+    use ractor::{Actor, ActorProcessingErr, ActorRef};
+    struct Plain;
+    impl Actor for Plain {
+        type Msg = ();
+        type State = ();
+        type Arguments = ();
+        async fn pre_start(&self, _: ActorRef<()>, _: ()) -> Result<(), ActorProcessingErr> {
+            Ok(())
+        }
+    }
+    #[derive(Default)]
+    struct PlainTl;
+    impl ThreadLocalActor for PlainTl {
+        type Msg = ();
+        type State = ();
+        type Arguments = ();
+        async fn pre_start(&self, _: ActorRef<()>, _: ()) -> Result<(), ActorProcessingErr> {
+            Ok(())
+        }
+    }
+    let rt = tokio::runtime::Builder::new_multi_thread().worker_threads(2).enable_all().build().unwrap();
+    let name = format!("c10-clash-{}", std::process::id());
+    rt.block_on(async {
+        let (holder, hh) = Actor::spawn(Some(name.clone()), Plain, ()).await.unwrap();
+        let is_holder = |n: &String| ractor::registry::where_is(n.clone()).map(|c| c.get_id() == holder.get_id()).unwrap_or(false) as u8;
+        let r1 = Actor::spawn(Some(name.clone()), Plain, ()).await;
+        println!("regular_refused={}", r1.is_err() as u8);
+        println!("holder_after_regular={}", is_holder(&name));
+        let spawner = ThreadLocalActorSpawner::new();
+        let r2 = PlainTl::spawn(Some(name.clone()), (), spawner.clone()).await;
+        println!("thread_local_refused={}", r2.is_err() as u8);
+        println!("holder_after_thread_local={}", is_holder(&name));
+        let r3 = PlainTl::spawn_instant(Some(name.clone()), (), spawner.clone());
+        println!("thread_local_instant_refused={}", r3.is_err() as u8);
+        println!("holder_after_thread_local_instant={}", is_holder(&name));
+        let r4 = Actor::spawn(Some(name.clone()), Plain, ()).await;
+        println!("still_refused_afterwards={}", r4.is_err() as u8);
+        for r in [r1, r4].into_iter().flatten() {
+            r.0.stop(None);
+        }
+        if let Ok((a, _)) = r2 {
+            a.stop(None);
+        }
+        holder.stop(None);
+        let _ = tokio::time::timeout(std::time::Duration::from_secs(2), hh).await;
+    });
+}
